@@ -11,7 +11,7 @@ CONSTANT Inst
 Lim(r, b) == [rate |-> r, burst |-> b]
 
 MCAddrs ==
-  CASE Inst = "sub4"   -> {"a", "a2", "b", "c", "x"}
+  CASE Inst \in {"sub4", "sub4L"} -> {"a", "a2", "b", "c", "x"}
     [] Inst = "np"     -> {"p", "q", "a", "r"}
     [] Inst = "v6"     -> {"x1", "x2", "z", "a"}
     [] Inst = "mapped" -> {"m", "a", "x1"}
@@ -20,7 +20,7 @@ MCAddrs ==
     [] Inst = "vsanp"  -> {"p", "q", "l", "a"}
 
 MCFamOf ==
-  CASE Inst = "sub4"   -> [n \in MCAddrs |-> IF n = "x" THEN "v6" ELSE "v4"]
+  CASE Inst \in {"sub4", "sub4L"} -> [n \in MCAddrs |-> IF n = "x" THEN "v6" ELSE "v4"]
     [] Inst = "np"     -> [n \in MCAddrs |-> IF n = "r" THEN "v6" ELSE "v4"]
     [] Inst = "v6"     -> [n \in MCAddrs |-> IF n = "a" THEN "v4" ELSE "v6"]       \* z = netip.Addr{} : Is4() false
     [] Inst = "mapped" -> [n \in MCAddrs |-> IF n = "a" THEN "v4" ELSE "v6"]       \* m = ::ffff:<a> : Is4() false
@@ -46,6 +46,10 @@ MCLevels ==
          [v4 |-> << [key |-> Key([a |-> "4n1", a2 |-> "4n1", b |-> "4n2", c |-> "4n3"]), rate |-> 2, burst |-> 2],
                     [key |-> Key([a |-> "4w1", a2 |-> "4w1", b |-> "4w1", c |-> "4w2"]), rate |-> 1, burst |-> 3] >>,
           v6 |-> << >>]
+    [] Inst = "sub4L" ->     \* thorough tier: larger bursts, slow narrow refill, longer grace
+         [v4 |-> << [key |-> Key([a |-> "4n1", a2 |-> "4n1", b |-> "4n2", c |-> "4n3"]), rate |-> 1, burst |-> 2],
+                    [key |-> Key([a |-> "4w1", a2 |-> "4w1", b |-> "4w1", c |-> "4w2"]), rate |-> 2, burst |-> 3] >>,
+          v6 |-> << [key |-> Key([x |-> "6n1"]), rate |-> 2, burst |-> 1] >>]
     [] Inst = "np" ->
          [v4 |-> << [key |-> Key([a |-> "4n1", p |-> "4np", q |-> "4nq"]), rate |-> 2, burst |-> 3] >>,
           v6 |-> << [key |-> Key([r |-> "6nr"]), rate |-> 2, burst |-> 1] >>]
@@ -68,12 +72,14 @@ MCLevels ==
 
 MCGlob ==
   CASE Inst = "sub4"   -> Lim(2, 3)
+    [] Inst = "sub4L"  -> Lim(1, 3)
     [] Inst = "np"     -> Lim(2, 2)
     [] Inst = "mapped" -> Lim(2, 3)
     [] OTHER           -> Lim(0, 0)          \* GlobalLimit{} = unlimited
 
 MCGrace ==
   CASE Inst = "sub4" -> 1
+    [] Inst = "sub4L" -> 2
     [] Inst = "v6"   -> 2
     [] Inst \in {"vsa", "vsanp"} -> 6       \* one minute = 6 ticks of 10 s
     [] OTHER         -> 0
